@@ -441,6 +441,14 @@ pub fn knobs(profile: &str, thorough: bool, rng: &mut Rng) -> Knobs {
             set_w(&mut kn, K::Adopt, 4);
             set_w(&mut kn, K::Clone, 14);
             kn.walk_len += 10;
+            // records that vanish because a peer died or was given up (also after a forgotten
+            // unadopt, with parallel adoptions): the object then has no records and pays nothing
+            if rng.chance(1, 4) {
+                kn.elide_p = 1 + rng.below(3) as u32;
+                kn.max_mult = 2 + rng.below(3);
+                set_w(&mut kn, K::TryUnwrap, 2);
+                set_w(&mut kn, K::MakeMut, 2);
+            }
         }
         _ => {}
     }
